@@ -48,6 +48,7 @@ type Contract struct {
 	Tracks   []Track
 	Asserts  []AssertAt
 	Params   []string // for iface/extern/callback: optional explicit parameter names
+	Refines  []string // interface method contracts this function must satisfy
 	File     string
 	Line     int
 	Used     bool
@@ -82,7 +83,7 @@ type Contracts struct {
 var clauseKeywords = map[string]bool{
 	"func": true, "iface": true, "extern": true, "callback": true, "spec": true, "axiom": true, "ghost": true,
 	"props": true, "arith": true, "flags": true, "requires": true, "ensures": true, "modifies": true,
-	"loop": true, "track": true, "panics": true, "statement": true, "params": true, "assert": true, "lemma": true,
+	"loop": true, "track": true, "panics": true, "statement": true, "refines": true, "params": true, "assert": true, "lemma": true,
 }
 
 func parseContracts(srcs []contractSource) (*Contracts, error) {
@@ -229,6 +230,8 @@ func parseContracts(srcs []contractSource) (*Contracts, error) {
 					for _, f := range strings.FieldsFunc(rest, func(r rune) bool { return r == ',' || r == ' ' || r == ';' }) {
 						cur.Flags[f] = true
 					}
+				case "refines":
+					cur.Refines = append(cur.Refines, strings.Fields(rest)...)
 				case "params":
 					cur.Params = strings.Fields(strings.ReplaceAll(rest, ",", " "))
 				case "statement":
